@@ -306,6 +306,20 @@ func c18RepeatHistories() [][]Action {
 			Act("setMaxBurnAmountPerMessage(UUSDC,9) by A3", &cctptypes.MsgSetMaxBurnAmountPerMessage{From: TokenCtl.Str, LocalToken: "UUSDC", Amount: math.NewInt(9)}),
 			MkDeposit(UserA.Str, math.NewInt(10), DomEth, distinct32(0x24), "uusdc"),
 		})
+	// one public key enabled under seven accepted spellings, then disabled spelling by spelling (round 6, C18r6-1:
+	// a handler that collects the spellings in a Go map emits its events and store deletes in map order)
+	k := Keys[2].Hex
+	up := strings.ToUpper(k)
+	half := strings.ToUpper(k[:len(k)/2]) + k[len(k)/2:]
+	var many []Action
+	spell := []string{k, "0x" + k, "0X" + k, up, "0x" + up, "0X" + up, "0x" + half}
+	for _, s := range spell {
+		many = append(many, Act(fmt.Sprintf("enableAttester(K3 as %.6s..%d) by A1", s, len(s)), &cctptypes.MsgEnableAttester{From: AttMgr.Str, Attester: s}))
+	}
+	for _, s := range spell {
+		many = append(many, Act(fmt.Sprintf("disableAttester(K3 as %.6s..%d) by A1", s, len(s)), &cctptypes.MsgDisableAttester{From: AttMgr.Str, Attester: s}))
+	}
+	hs = append(hs, many)
 	return hs
 }
 
